@@ -59,6 +59,12 @@ func (c *Ctx) unconditionalStores(fn *ssa.Function) map[string]*ssa.Store {
 }
 
 func init() {
+	for _, sub := range []struct{ id, op string }{{"STATE.tokenize", "tokenize"}, {"STATE.parse", "parse-expression"}, {"STATE.template", "parse-template"}} {
+		sub := sub
+		register(&Rule{ID: sub.id, Floor: 5,
+			Doc: "STATE.reset restricted to the operation '" + sub.op + "': the entry points reset first and every instance field written during the operation is re-initialised for each run",
+			Run: func(c *Ctx) []*Obligation { return stateResetFor(c, sub.id, sub.op) }})
+	}
 	register(&Rule{ID: "STATE.reset", Floor: 12,
 		Doc: "for each reusable operation (tokenize a stream, parse an expression, parse a template): the first thing an entry point does is call the reset routine, and every instance field written while the operation runs is unconditionally assigned by that routine — or is reachable only through a field it replaces, always receives the same constant, is re-initialised under a guard made of exactly the reset values, or is an owned lazily-built memo of construction-time data",
 		Run: ruleStateReset})
@@ -67,9 +73,14 @@ func init() {
 		Run: ruleStateLookahead})
 }
 
-func ruleStateReset(c *Ctx) []*Obligation {
-	o := newObl("STATE.reset")
+func ruleStateReset(c *Ctx) []*Obligation { return stateResetFor(c, "STATE.reset", "") }
+
+func stateResetFor(c *Ctx, rule, only string) []*Obligation {
+	o := newObl(rule)
 	for _, op := range reuseOps {
+		if only != "" && op.name != only {
+			continue
+		}
 		resetFn := c.MustFunc(op.pkg, op.typ, op.reset)
 		resetStores := c.unconditionalStores(resetFn)
 		var resetNames []string
